@@ -404,8 +404,16 @@ def E_gridgeom(rng, tier):
                 g.coord2cell(np.zeros((0, 2)))
                 cells = np.array([0, -1, nr * nc, nr * nc - 1, 2 ** 62, -2 ** 62,
                                   2 ** 63 - 1, -2 ** 63])
-                g.cell2coord(cells)
-                g.cell2rowcol(cells)
+                xy_ = np.asarray(g.cell2coord(cells), dtype=float)
+                rc_ = np.asarray(g.cell2rowcol(cells))
+                # "input the kernels cannot handle is answered with ... the documented
+                # sentinel value": cell numbers outside the grid (every number, on a grid
+                # without rows or columns) give (-1, -1) and NaN coordinates
+                inval = (cells < 0) | (cells >= nr * nc)
+                if not np.all(rc_[inval] == -1):
+                    os.write(2, b"\nHYVERIF-MONITOR: invalid-cell-not-flagged c_cell2rowcol\n")
+                if not np.all(np.isnan(xy_[inval])):
+                    os.write(2, b"\nHYVERIF-MONITOR: invalid-cell-not-flagged c_cell2coord\n")
                 g.cell2coord(np.zeros(0, dtype=np.int64))
                 for c in cells:
                     try:
